@@ -507,25 +507,27 @@ Proof.
   contradiction.
 Qed.
 
-(* ... while printer.go mayCombine misses some of them *)
-Theorem v1_may_combine_incomplete :
-  needs_sep (TOp LSS) (TOp SUB) = true /\ v1_may_combine (TOp LSS) (TOp SUB) = false.
-Proof. split; reflexivity. Qed.
-
-Definition v1_missed : list (op * op) :=
-  [(NOT, EQL); (LSS, EQL); (GTR, EQL); (LSS, SUB); (NOT, MAT); (LSS, MAT); (GTR, MAT)].
-
-Theorem v1_may_combine_missed_exactly : forall o o', In o unops -> In o' unops ->
-  (needs_sep (TOp o) (TOp o') = true /\ v1_may_combine (TOp o) (TOp o') = false) <-> In (o, o') v1_missed.
+(* ... and since the fix (opCombinesWith) printer.go mayCombine covers every pair of
+   unary operators that needs a blank (it also separates `+ +` and `- -`, which do not) *)
+Theorem v1_may_combine_complete : forall o o', In o unops -> In o' unops ->
+  needs_sep (TOp o) (TOp o') = true -> v1_may_combine (TOp o) (TOp o') = true.
 Proof.
   intros o o' H H'. simpl in H, H'.
   repeat (destruct H as [<- | H];
-          [repeat (destruct H' as [<- | H'];
-                   [vm_compute; split;
-                    [intros [A B]; try discriminate; tauto
-                    | intros C; repeat (destruct C as [C | C]; [try discriminate C; auto|]); try contradiction]|]);
+          [repeat (destruct H' as [<- | H']; [vm_compute; intros A; try discriminate A; reflexivity|]);
            contradiction|]).
   contradiction.
+Qed.
+
+(* the seven pairs the printer used to glue (finding K1, fixed) *)
+Definition v1_missed : list (op * op) :=
+  [(NOT, EQL); (LSS, EQL); (GTR, EQL); (LSS, SUB); (NOT, MAT); (LSS, MAT); (GTR, MAT)].
+
+Theorem v1_formerly_missed_now_separated : forall o o', In (o, o') v1_missed ->
+  needs_sep (TOp o) (TOp o') = true /\ v1_may_combine (TOp o) (TOp o') = true.
+Proof.
+  intros o o' H. simpl in H.
+  repeat (destruct H as [H | H]; [inversion H; subst; split; reflexivity|]). contradiction.
 Qed.
 
 (* mayCombine covers the INT / period pair, the pretty printer has no such case *)
